@@ -246,9 +246,14 @@ class QuantityPoint {
     Diff x_;
 };
 
+// Provide a definition for the `unit` member, so that it can be ODR-used (e.g., bound to a
+// reference) before C++17 made `static constexpr` members implicitly inline.
+template <typename UnitT, typename RepT>
+constexpr UnitT QuantityPoint<UnitT, RepT>::unit;
+
 template <typename Unit>
 struct QuantityPointMaker {
-    static constexpr auto unit = Unit{};
+    static constexpr Unit unit{};
 
     template <typename T>
     constexpr auto operator()(T value) const {
@@ -278,6 +283,9 @@ struct QuantityPointMaker {
         return QuantityPointMaker<decltype(unit / m)>{};
     }
 };
+
+template <typename Unit>
+constexpr Unit QuantityPointMaker<Unit>::unit;
 
 template <typename U>
 struct AssociatedUnitForPoints<QuantityPointMaker<U>> : stdx::type_identity<U> {};
